@@ -29,7 +29,7 @@ ASSUMPTIONS = [
 ]
 
 EPS32 = float(np.finfo(np.float32).eps)
-FAMILIES = ["const", "b1", "b2", "b4", "b8", "outlier", "offset", "grid", "step", "ramp"]
+FAMILIES = ["const", "b1", "b2", "b4", "b8", "outlier", "offset", "grid", "step", "ramp", "tiny", "huge"]
 
 
 def prime():
@@ -65,6 +65,11 @@ def make(kind, n, nch, seed):
     if kind == "ramp":
         x = rng.integers(-16, 17, (n, nch)) / 8 + np.round(np.linspace(0, float(rng.choice([8, 64, -200])), n) * 8)[:, None] / 8
         return x.astype(np.float32)
+    if kind in ("tiny", "huge"):
+        # the unit of the data is arbitrary (calibrated Jy of 1e-6, raw counts of 1e+6): a skewed, non-constant
+        # distribution on a dyadic grid scaled by 2^-20 or 2^+20
+        base = rng.integers(0, 4, (n, nch)) ** 2 + rng.integers(0, 2, (n, nch)) * 5
+        return (base * (2.0**-20 if kind == "tiny" else 2.0**20)).astype(np.float32)
     if kind == "offset":
         off = float(rng.choice([10, 100, 1000, 10000]))
         return (off + rng.integers(-8, 9, (n, nch)) / 8).astype(np.float32)
@@ -178,7 +183,7 @@ def check(case, ctx):
 
 def enum_compositions(tier):
     nmax = 10 if tier == "quick" else 13
-    fams = ["b1", "b8", "offset", "grid", "outlier", "const", "step"] if tier == "quick" else FAMILIES
+    fams = ["b1", "b8", "offset", "grid", "outlier", "const", "step", "tiny"] if tier == "quick" else FAMILIES
     for fam in fams:
         for mode in ("basic", "full"):
             for n in range(2, nmax + 1):
